@@ -6,7 +6,7 @@
      label_at rl k s      s, or k + 1 when relabelling (k = 0-based position in the request)
      req_covers st key req p f k   frame f of plane key belongs to the k-th requested segment and is > 0 at pixel p *)
 From Coq Require Import String ZArith List Bool Lia.
-From HD Require Import Base.Val C02_Model C02_Proofs C02_Proofs_Ext.
+From HD Require Import Base.Val C02_Model C02_Proofs C02_Proofs_Ext C02_Proofs_Ix.
 Import ListNotations.
 Open Scope Z_scope.
 
@@ -401,3 +401,27 @@ Theorem C02_refusals_fractional_combined : forall st keys req o,
   (args_ok st req o = true -> o_skip o = true -> exists r, seg_frame st keys req o = Ok r).
 Proof. exact fractional_combined_refusals. Qed.
 Print Assumptions C02_refusals_fractional_combined.
+
+(* ---- objects with foreign DimensionIndexValues ---------------------------------------------- *)
+(* Every FrameLUT row xs carries the value columns of its frame and arbitrary index columns (x_kix along
+   the plane dimensions, x_six along ReferencedSegmentNumber).  On every entry point the read equals the
+   read of the plain object: the index values along the segment dimension are never consulted (segments
+   are selected by NUMBER), and the entry point that addresses planes by dimension index values depends
+   on the plane index values only through the injective naming enc of the planes.  Hence every theorem
+   above about [read] holds for such objects. *)
+Theorem C02_dimension_index_encoding_irrelevant : forall (enc : Z -> Z),
+  (forall a b, enc a = enc b -> a = b) ->
+  forall e am st xs keys req o,
+  (forall x, In x xs -> x_kix x = enc (fkey (x_frame x))) ->
+  read_ix e am st xs (if stack_use_indices e then map enc keys else keys) req o =
+  read e am (with_frames st (map x_frame xs)) keys req o.
+Proof. exact read_ix_by_number. Qed.
+Print Assumptions C02_dimension_index_encoding_irrelevant.
+
+Example C02_dimension_index_nonvacuous :
+  read_ix EDimIdx false ex_ix_st ex_ix_frames [5; 3] [3; 2] (mkOpts false false false false None)
+  = Ok (DU 8, OStack [[[1; 1]; [0; 0]]; [[0; 1]; [0; 0]]]) /\
+  read_ix EDimIdx false ex_ix_st ex_ix_frames [3; 5] [1; 3] (mkOpts true false false false None)
+  = Ok (DU 8, OComb [[1; 3]; [3; 3]]).
+Proof. exact ex_ix_reads. Qed.
+Print Assumptions C02_dimension_index_nonvacuous.
